@@ -394,8 +394,11 @@ def streams(tier, rng):
         d0, ms0 = _made_fields(make)
         same = layout(d0, ms0) if (0 <= d0 <= 65535 and 0 <= ms0 < 2 ** 32) else layout(0, 0)
         other = layout(*rand_ts(rng))
+        same_day = same[:3] + other[3:]          # same day, another time of day
+        same_ms = other[:3] + same[3:]           # another day, same time of day
         for first in ([1] + same, [2] + same, [1] + other, [2] + other + [rng.randrange(256)] * rng.choice([0, 1, 600]), [4],
-                      [1] + same[:6], [1, 0x50] + same[1:], [1, 0x44] + same[1:], [3, 0, 0, 0], [3, 0, 1, 0], [5]):
+                      [1] + same_day, [2] + same_ms, [1] + same[:6], [1, 0x50] + same[1:], [1, 0x44] + same[1:],
+                      [3, 0, 0, 0], [3, 0, 0, 999], [3, 0, 1, 0], [3, 1, 0, 0], [5]):
             cases.append((418, [make, first, [5], [4], [1] + other, [1] + other, [3, 0, 0, 999], [4]]))
     for i in range(30):          # now() and its two deprecated aliases: invariants against the clock reading
         cases.append((419, [[i]]))
